@@ -185,6 +185,14 @@ func streamCase(w streamWit) (kind, detail string) {
 			kind, detail = "reader-mismatch", fmt.Sprintf("Reader with buffer %d: err=%q panic=%q returned %d bytes, stored %d: %s", w.Buf, rd.Err, rd.Panic, len(rd.Data), len(data), shortDiff(rd.Data, data))
 			return
 		}
+		// the reader drained through io.Copy (WriteTo fast path), alone and after a header of Buf bytes
+		for _, via := range []string{"copy", "head+copy"} {
+			rc := fsx.Exec(fs, treefs.Op{Kind: "Reader", P: "d/f", Buf: w.Buf, Via: via})
+			if !rc.OK() || rc.Data != data {
+				kind, detail = "reader-mismatch/"+via, fmt.Sprintf("Reader drained via %s (header %d bytes): err=%q panic=%q returned %d bytes, stored %d: %s", via, w.Buf, rc.Err, rc.Panic, len(rc.Data), len(data), shortDiff(rc.Data, data))
+				return
+			}
+		}
 	})
 	if kind == "" && (res.Deadlock || res.Horizon) {
 		kind, detail = "blocks-forever", fmt.Sprint(res.Blocked)
@@ -1037,7 +1045,7 @@ func replay(wj json.RawMessage) (*fw.Violation, error) {
 
 func init() {
 	fw.Register(&fw.Check{ID: "C04", Level: "fault_enumeration",
-		Rule: "streams: backends{mem,disk,enc-mem,enc-disk,cache-mem} x contents{'', 'x', 'xyz', 5KiB} x every split into <=3 chunks (incl. empty chunks; fixed cut points for the long content; all chunks through Write, and Write / io.WriteString / io.Copy in turn on one handle) x previous destination{absent,empty,shorter,longer,equal,directory} x read buffers{1,2,3,4096}; two writers (then two readers) open at the same time on every backend pair, fed in alternation from one re-used caller buffer, both close orders, contents up to 40 KiB; copy helpers {fshelper.Copy, Copier.Do(dir), Copier.Do(file), StreamCopy} x 5 tree shapes (one with a 70 KiB file, i.e. several rounds of the 32 KiB copy loop) x all 25 source/destination backend pairs, fault-free over 5 destination pre-states (empty, same paths with older longer/shorter content, unrelated nodes, regular files where the source has directories, directories where the source has files: nil result => every source node present with its kind and bytes) and with EVERY single numbered call (open/Read/Write/Close/MkdirAll/ReadDir/IsFile/IsDir/Filespace, on source and destination; error and short-write variants) failing, for encrypted backends also with the failing layer below the encryption; thorough adds every pair of failing calls (memory) and preemption bound 2 for the concurrent tree copy. distinct = cases; all run the real code",
+		Rule: "streams: backends{mem,disk,enc-mem,enc-disk,cache-mem} x contents{'', 'x', 'xyz', 5KiB} x every split into <=3 chunks (incl. empty chunks; fixed cut points for the long content; all chunks through Write, and Write / io.WriteString / io.Copy in turn on one handle) x previous destination{absent,empty,shorter,longer,equal,directory} x read buffers{1,2,3,4096} (Read loop; io.Copy; a header taken with Read followed by io.Copy); two writers (then two readers) open at the same time on every backend pair, fed in alternation from one re-used caller buffer, both close orders, contents up to 40 KiB; copy helpers {fshelper.Copy, Copier.Do(dir), Copier.Do(file), StreamCopy} x 5 tree shapes (one with a 70 KiB file, i.e. several rounds of the 32 KiB copy loop) x all 25 source/destination backend pairs, fault-free over 5 destination pre-states (empty, same paths with older longer/shorter content, unrelated nodes, regular files where the source has directories, directories where the source has files: nil result => every source node present with its kind and bytes) and with EVERY single numbered call (open/Read/Write/Close/MkdirAll/ReadDir/IsFile/IsDir/Filespace, on source and destination; error and short-write variants) failing, for encrypted backends also with the failing layer below the encryption; thorough adds every pair of failing calls (memory) and preemption bound 2 for the concurrent tree copy. distinct = cases; all run the real code",
 		Run: run, Replay: replay,
 		Assumptions: []string{"fault positions are the calls crossing the Filespace/Reader/Writer interfaces (harness-side wrapper)", "a bool query 'fails' by answering false", "fshelper.Copy runs under the controlled scheduler: default schedule for the fault sweep, bounded preemptions for the fault-free case"}})
 }
